@@ -68,7 +68,7 @@ def _allowed_io_error(e, DataAccessError):
 
 def _file_world(cfg):
     env = Env()
-    fa = load.patch("file_accessor", pathlib=env.pathlib, os=env.os, gzip=env.gzip)
+    fa = load.patch("file_accessor", pathlib=env.pathlib, os=env.os, gzip=env.gzip, open=env.open)
     acc = fa.FileAccessor("/mfs/ds", flat=cfg["flat"], gzip=cfg["gzip"])
     return env, fa, acc
 
@@ -439,8 +439,15 @@ def replay(cfg, cex):
                         return False
                     boom()
                 return real_isfile(self_)
+            real_osisfile = os.path.isfile
+
+            def p_osisfile(path):
+                if hit("is_file"):
+                    return False          # os.path.isfile answers False on any OSError from stat()
+                return real_osisfile(path)
             patches = [um.patch.object(fa.os, "makedirs", p_makedirs), um.patch.object(pathlib.Path, "open", p_open),
-                       um.patch.object(fa.gzip, "open", g_open), um.patch.object(pathlib.Path, "is_file", p_isfile)]
+                       um.patch.object(fa.gzip, "open", g_open), um.patch.object(pathlib.Path, "is_file", p_isfile),
+                       um.patch.object(os.path, "isfile", p_osisfile)]
             for p_ in patches:
                 p_.start()
             try:
@@ -459,6 +466,8 @@ def replay(cfg, cex):
                 return True, f"{cfg['op']} returned normally although {opname}#{occ} failed with {ename}"
             if r != "raised" and cfg["op"] == "fetch_chunk" and r != p0:
                 return True, f"fetch_chunk returned {r!r} after a failed {opname}"
+            if r != "raised" and cfg["op"] == "file_exists" and r is not True and e != errno.ENOENT:
+                return True, f"file_exists returned {r!r} although the probe failed with {ename} (the file exists)"
             reader = fa.FileAccessor(os.path.join(td, "ds"), flat=cfg["flat"], gzip=cfg["gzip"])
             for cc_, pl in ((CH[0], p0), (CH[1], p1)):
                 if cc_ == CH[1] and cfg["op"] == "store_chunk_over" and not (
